@@ -26,6 +26,21 @@ import evo
 
 KINDS = evo.MUT_KINDS   # none arch param act hp
 
+_evo_obs_space = evo.obs_space
+
+
+def _obs_space(family):
+    """the engine's space families plus "dictimg": a Dict observation with a vector and an image member (the multi-input
+    encoder then has a CNN feature net and a non-trivial extracted-feature dimension)"""
+    if family == "dictimg":
+        from gymnasium import spaces
+        import numpy as np
+        return spaces.Dict({"a": spaces.Box(-1.0, 1.0, (3,), np.float32), "img": spaces.Box(0.0, 1.0, (1, 6, 6), np.float32)})
+    return _evo_obs_space(family)
+
+
+evo.obs_space = _obs_space
+
 
 # ---------------------------------------------------------------------------------------------- implementation side
 def _recording_mutations():
@@ -199,6 +214,45 @@ class C02(vlib.Driver):
             ops += train_all(n, r, act=False)
             return {"algo": algo, "family": "vector", "share": share, "netcfg": "bound-" + side, "cfg": cfg, "seed": seed, "pop": n, "ops": ops}
 
+        def methods(algo, family, share, kind, seed, pop=1):
+            """every mutation method the policy advertises is forced once ("all_methods" is expanded at run time from the
+            real policy network), on the default configuration (away from every bound) or on a configuration whose layer
+            counts are pinned (min = max = current), so that add_layer / remove_layer / change_kernel take their fall-back
+            paths (add_node / add_channel with randomly drawn arguments that only travel through the returned dictionary)"""
+            cfg = None
+            if kind == "fallback":
+                mlp = {"hidden_size": [8, 8], "min_hidden_layers": 2, "max_hidden_layers": 2, "min_mlp_nodes": 4, "max_mlp_nodes": 500}
+                if family in ("vector", "discrete"):
+                    enc = dict(mlp)
+                elif family == "image":
+                    enc = {"channel_size": [2], "kernel_size": [3], "stride_size": [1], "min_hidden_layers": 1, "max_hidden_layers": 1,
+                           "min_channel_size": 1, "max_channel_size": 64}
+                else:
+                    enc = {"latent_dim": 16, "min_latent_dim": 8, "max_latent_dim": 64, "vector_space_mlp": True}
+                cfg = {"latent_dim": 32, "encoder_config": enc, "head_config": dict(mlp)}
+            c = {"algo": algo, "family": family, "share": share, "netcfg": "none" if cfg is None else "methods-" + kind, "seed": seed,
+                 "pop": pop, "ops": [["all_methods", seed]]}
+            if cfg is not None:
+                c["cfg"] = cfg
+            return c
+
+        METHOD_ALGOS = [("DQN", False), ("RainbowDQN", False), ("TD3", False), ("TD3", True), ("PPO", False), ("NeuralTS", False),
+                        ("MATD3", False), ("IPPO", False)]
+        OBS_FAMILIES = ["vector", "image", "dictimg", "discrete"]
+        for algo, share in METHOD_ALGOS:
+            for fam in OBS_FAMILIES + ([] if tier == "quick" else ["dict"]):
+                if algo in evo.BANDIT and fam == "discrete":
+                    continue
+                if only and only not in ("methods", algo):
+                    continue
+                if tier != "quick" or not share or fam == "vector":
+                    cases.append(methods(algo, fam, share, "default", 1))
+                if tier != "quick" or fam == "vector" or (algo in ("RainbowDQN", "TD3", "PPO", "MATD3") and not share and fam in ("image", "dictimg")):
+                    cases.append(methods(algo, fam, share, "fallback", 2, pop=2))
+        if only == "methods":
+            cases = [c for c in cases if c["ops"] and c["ops"][0][0] == "all_methods"]
+            self._precompute(cases)
+            return cases
         ACTOR_CRITIC = ["DDPG", "TD3", "PPO", "MADDPG", "MATD3", "IPPO"]
         only = os.environ.get("VERIF_C02_ONLY")      # developer shortcut for the mutation self-test (never registered)
         for algo in evo.ALGOS:
@@ -286,7 +340,19 @@ class C02(vlib.Driver):
         Rec = _recording_mutations()
         states = [self._snap(pop)]
         recs = []
-        for op in case["ops"]:
+        ops_run = []
+        for op0 in case["ops"]:
+            if op0[0] == "all_methods":
+                # every mutation method the policy advertises (nested ones included), each forced once on every member,
+                # each followed by act + learn of every member; the method list is read from the real policy network
+                r_ = random.Random(f"C02-am-{op0[1]}")
+                pol_ = evo._modules_of(getattr(evo.unwrap(pop[0]), reg["policy"]))[0]
+                for meth_ in sorted(pol_.mutation_methods):
+                    ops_run.append(["mutate", {"kinds": ["arch"] * len(pop), "methods": [meth_]}, r_.randrange(1000), False])
+                    ops_run += [["train", i, r_.randrange(1000), True] for i in range(len(pop))]
+            else:
+                ops_run.append(op0)
+        for op in ops_run:
             rec = {"op": op[0]}
             k = op[0]
             if k == "mutate":
@@ -339,7 +405,7 @@ class C02(vlib.Driver):
                     rec["mutation_error"] = f"{type(e).__name__}: {e}"
                     rec["mutation_trace"] = traceback.format_exc()[-1200:]
                     recs.append(rec)
-                    return {"reg": reg, "states": states, "recs": recs, "aborted": True}
+                    return {"reg": reg, "states": states, "recs": recs, "aborted": True, "ops": ops_run}
                 rec["kinds"] = list(m.log)
                 rec["len_before"], rec["len_after"] = len(pop), len(out)
                 rec["idx_before"], rec["idx_after"] = idx_before, [int(evo.unwrap(a).index) for a in out]
@@ -374,6 +440,7 @@ class C02(vlib.Driver):
                                        "methods": list(evo._modules_of(getattr(a, reg["policy"]))[0].mutation_methods)}
                     hc = a.registry.hp_config
                     mem["hp_names"] = list(hc.names()) if hc else []
+                    mem["follow"] = _follow_outputs(a, reg, int(seed) + i)
                     rec["members"].append(mem)
                 pop = list(out)
             elif k == "train":
@@ -431,12 +498,17 @@ class C02(vlib.Driver):
                 rec["changed_pos"] = ch
             else:
                 states.append(self._snap(pop))
-        return {"reg": reg, "states": states, "recs": recs}
+        return {"reg": reg, "states": states, "recs": recs, "ops": ops_run}
 
     @staticmethod
     def _snap(pop):
         out = []
-        for ag in evo.snapshot(pop):
+        for ag, obj in zip(evo.snapshot(pop), pop):
+            a = evo.unwrap(obj)
+            for n, d in ag["struct"]["nets"].items():
+                # the descriptor also carries the LAYER structure actually built (types of all sub-modules by name): two
+                # networks with equal init_dicts and equal state-dict keys can still differ in their activation layers
+                d["arch"] = d["arch"] + "|layers:" + _layers_sig(getattr(a, n))
             out.append({"slots": [[s[0], s[1], list(s[2]), s[3]] for s in ag["slots"]], "struct": ag["struct"]})
         return out
 
@@ -473,7 +545,7 @@ class C02(vlib.Driver):
             vals = _pack(tab.val(s_[3]) for s_ in ag["slots"])
             return f"({evo.coq_aobs(ag, reg, tab)}, {alias}, {vals})"
         gsteps = []
-        for op, rec, before, after in zip(case["ops"], obs["recs"], obs["states"], obs["states"][1:]):
+        for op, rec, before, after in zip(obs.get("ops", case["ops"]), obs["recs"], obs["states"], obs["states"][1:]):
             k = op[0]
             ops, learn, arch = [], "None", []
             if k == "train":
@@ -540,7 +612,8 @@ class C02(vlib.Driver):
             fam = "" if case.get("family", "vector") == "vector" else "@" + case["family"]
             return f"{clause}{fam}:{algo}{'+share' if case.get('share') else ''}:{what}"
 
-        for t, (op, rec) in enumerate(zip(case["ops"], recs)):
+        ops_all = obs.get("ops", case["ops"])
+        for t, (op, rec) in enumerate(zip(ops_all, recs)):
             if len(out) > 6:
                 break
             before, after = states[t], states[min(t + 1, len(states) - 1)]
@@ -583,6 +656,13 @@ class C02(vlib.Driver):
                             out.append(Violation("optimizer-lr", sig("optlr", kind),
                                                  f"{who}: optimizer {o} uses lr {d['lrs']} (wrapper {d['wrapper_lr']}) but agent.{d['lr_name']} = {d['attr_lr']}"))
                             break
+                    # shared / target networks compute the same function as the network they shadow right after the mutation
+                    for s_name, fo in (mem.get("follow") or {}).items():
+                        if fo["status"] == "differ":
+                            out.append(Violation("shared-function", sig("sharedfunction", kind),
+                                                 f"{who}: right after the mutation {s_name} and {shared_of.get(s_name)} (equal mode, equal noise, same probe "
+                                                 f"batch) compute different outputs: {fo['detail'][:200]}"))
+                            break
                     # shared / target networks: architecture and (right after the mutation) weights of the network they shadow
                     vals = {s[0]: s[3] for s in after[i]["slots"]}
                     for s_name, e_name in shared_of.items():
@@ -623,7 +703,7 @@ class C02(vlib.Driver):
                                                      f"different one after it: {tr['sub'][1][:160]} vs policy {pt['sub'][1][:160]}"))
                                 break
             elif k == "train":
-                lk = self._last_kind(case, recs, t, op[1])
+                lk = self._last_kind({"ops": ops_all}, recs, t, op[1])
                 if rec.get("act_error"):
                     out.append(Violation("act", sig("act", lk), f"{what}: get_action fails after the mutation: {rec['act_error'][:300]}"))
                 if rec.get("error"):
@@ -676,7 +756,7 @@ class C02(vlib.Driver):
     def nontrivial(self, case, obs):
         if obs.get("aborted"):
             return False
-        ops, recs = case["ops"], obs["recs"]
+        ops, recs = obs.get("ops", case["ops"]), obs["recs"]
         if not any(o[0] == "train" for o in ops):
             return False
         for t, (o, r) in enumerate(zip(ops, recs)):
@@ -691,7 +771,7 @@ class C02(vlib.Driver):
                 f"pop={case['pop']}"]
         gen = 0
         trained = False
-        for o, r in zip(case["ops"], obs["recs"]):
+        for o, r in zip(obs.get("ops", case["ops"]), obs["recs"]):
             labs.append("op=" + o[0])
             if o[0] == "train":
                 trained = True
@@ -705,6 +785,8 @@ class C02(vlib.Driver):
                 if o[1].get("mutate_elite") is False:
                     labs.append("mutate_elite=False")
                 for mem_ in r.get("members", []):
+                    for fo_ in (mem_.get("follow") or {}).values():
+                        labs.append("shared-output=" + fo_["status"])
                     ar_ = mem_.get("arch")
                     if ar_:
                         pd = ar_["trans"][mem_["policy"]].get("delta")
@@ -728,6 +810,99 @@ class C02(vlib.Driver):
                 c["ops"] = case["ops"][:cut]
                 yield c
                 break
+
+
+def _layers_sig(obj):
+    import hashlib
+    parts = []
+    for m in evo._modules_of(obj):
+        m = getattr(m, "_orig_mod", m)
+        parts.append([(n, type(sub).__name__) for n, sub in m.named_modules()])
+    return hashlib.sha1(json.dumps(parts).encode()).hexdigest()[:12]
+
+
+def _probe_call(m, seed):
+    """forward pass of one network on a seeded probe batch drawn from its own observation (and action) space, in eval mode,
+    noise re-drawn under the same seed; returns a flat list of floats or raises"""
+    import inspect
+    import numpy as np
+    import torch
+    from agilerl.utils.algo_utils import preprocess_observation
+    m = getattr(m, "_orig_mod", m)
+    space = getattr(m, "observation_space", None)
+    if space is None:
+        raise LookupError("no observation_space")
+    g = torch.Generator().manual_seed(int(seed) + 4321)
+
+    def npy(o):
+        return {k: npy(v) for k, v in o.items()} if isinstance(o, dict) else o.numpy()
+    obs = preprocess_observation(npy(evo.rand_obs(space, 2, g)), space)
+    args = [obs]
+    nparams = [p for p in inspect.signature(m.forward).parameters.values() if p.default is inspect._empty and p.kind == p.POSITIONAL_OR_KEYWORD]
+    if len(nparams) >= 2:
+        asp = getattr(m, "action_space", None)
+        dim = int(np.prod(asp.shape)) if asp is not None and getattr(asp, "shape", None) else 2
+        args.append(torch.rand((2, dim), generator=g))
+    flags = [(sub, sub.training) for sub in m.modules()]
+    try:
+        m.eval()
+        torch.manual_seed(int(seed) + 99)
+        if hasattr(m, "reset_noise"):
+            m.reset_noise()
+        torch.manual_seed(int(seed) + 77)
+        with torch.no_grad():
+            out = m(*args)
+    finally:
+        for sub, f in flags:
+            sub.training = f
+    flat = []
+
+    def walk(o):
+        if isinstance(o, torch.Tensor):
+            flat.extend(o.detach().double().flatten().tolist())
+        elif isinstance(o, dict):
+            for k in sorted(o, key=str):
+                walk(o[k])
+        elif isinstance(o, (list, tuple)):
+            for x in o:
+                walk(x)
+        elif isinstance(o, (int, float)):
+            flat.append(float(o))
+    walk(out)
+    if not flat:
+        raise LookupError("no tensor output")
+    return flat
+
+
+def _follow_outputs(a, reg, seed):
+    """per shared/target network: does it compute what its evaluation network computes on a probe batch?
+    status: equal | differ | n/a (the generic probe cannot drive this kind of network)"""
+    import torch
+    rng_state = torch.get_rng_state()
+    out = {}
+    try:
+        for g in reg["groups"]:
+            for s_name in g["shared"]:
+                es, ss = evo._modules_of(getattr(a, g["eval"])), evo._modules_of(getattr(a, s_name))
+                status, detail = "equal", ""
+                for mi, (e, s_) in enumerate(zip(es, ss)):
+                    try:
+                        oe = _probe_call(e, seed)
+                    except Exception as ex:
+                        status, detail = "n/a", f"{type(ex).__name__}: {ex}"[:120]
+                        break
+                    try:
+                        os_ = _probe_call(s_, seed)
+                    except Exception as ex:
+                        status, detail = "differ", f"module {mi}: the evaluation network runs, the shared network raises {type(ex).__name__}: {ex}"[:200]
+                        break
+                    if len(oe) != len(os_) or any(abs(x - y) > 1e-6 * (1 + abs(x)) for x, y in zip(oe, os_)):
+                        status, detail = "differ", f"module {mi}: first outputs {oe[:3]} vs {os_[:3]}"
+                        break
+                out[s_name] = {"status": status, "detail": detail}
+    finally:
+        torch.set_rng_state(rng_state)
+    return out
 
 
 def _grad_sums(a, trained):
